@@ -107,8 +107,21 @@ fn extra(ctx: &mut crate::engine::Ctx) -> serde_json::Value {
     crate::fuzzrun::campaign(ctx, "fz_roundtrip", "fuzz-inputs:fz_roundtrip", 6_400_000, 4096)
 }
 
+fn o_hist(h: &crate::history::Hist<SpelledCase>, st: &mut Stats) -> Result<(), String> {
+    let s = spell(&h.inner.tuple, &h.inner.choices).assemble();
+    crate::history::judge(h, &s, o_spelled, st)
+}
+
 pub fn sections() -> Vec<Box<dyn Section>> {
     vec![
+        Box::new(Random {
+            name: "spelled-after-a-prelude".into(),
+            quick: 16_000,
+            thorough: 400_000,
+            strategy: Box::new(|_| crate::history::ghist(gspelled())),
+            oracle: o_hist,
+            required: vec!["accepted"],
+        }),
         Box::new(Listed {
             name: "fuzz-inputs:fz_roundtrip".into(),
             cases: Box::new(|_| fuzz_seed_cases("fz_roundtrip")),
